@@ -79,6 +79,7 @@ def run(ctx):
                 ctx.violation({"kind": "not-all-or-nothing", "problems": probs, "workspace": l3common.ws_json(w),
                                "cfg": l3common.cfg_json(cfg), "args": l3gen.cfg_args(cfg)})
     continued_pushes(ctx, rng, 120 if thorough else 30)
+    dry_runs(ctx, rng, 60 if thorough else 16)
     ctx.coverage["statement_checks"] = len(cases)
     l3common.finish(ctx, "random workspaces (1-4 files, 1-6 patches, 1-3 file entries each: modify/create/delete/rename/mode, "
                          "duplicate entries, -pN/-R), a corrupted hunk in ~55%; thread counts 1/2/4; all backup modes; plus a "
@@ -135,6 +136,37 @@ def continued_pushes(ctx, rng, n):
     ctx.coverage["evaluations"] = ctx.coverage.get("evaluations", 0) + done
 
 
+def dry_runs(ctx, rng, n):
+    """a dry run applies nothing: k = 0 names appended, the tree is the starting tree - also from a tree with applied
+    patches, with every thread count"""
+    from props import C09
+    bad = 0
+    for _ in range(n):
+        w = l3gen.gen_workspace(rng, npatches=rng.randint(2, 5), fail_prob=0.3)
+        names = l3common.series_names(w)
+        cfg = l3common.rand_cfg(rng, threads=(1, 2, 2, 4), dry=True)
+        j = rng.randint(0, max(0, len(names) - 1))
+        steps = ([(("C", j), 1)] if j else []) + [(("A",), cfg["threads"])]
+        d = l3gen.materialize(w, prefix="c05d")
+        start = l3gen.canon_snapshot(ws.snapshot(d, skip=("patches",))).split(" | ")
+        res = []
+        for k, (g, th) in enumerate(steps):
+            c = dict(cfg); c["goal"] = g; c["threads"] = th; c["dry"] = (k == len(steps) - 1)
+            rc, out = ws.run_push(ctx.binary, d, l3gen.cfg_args(c), timeout=30)
+            res.append("EXIT %s | %s" % (rc, l3gen.canon_snapshot(ws.snapshot(d, skip=("patches",)))))
+        ws.cleanup(d)
+        before = res[-2].split(" | ")[1:] if len(res) > 1 else None
+        after = res[-1].split(" | ")[1:]
+        ctx.coverage["dry_run_statement_checks"] = ctx.coverage.get("dry_run_statement_checks", 0) + 1
+        if before is None:
+            before = start
+        if after != before:
+            bad += 1
+            if bad <= 2:
+                ctx.violation({"kind": "not-all-or-nothing-dry", "problems": ["a dry run (threads=%d, after %d applied patches) changed: %s" % (
+                    cfg["threads"], j, [x[:120] for x in set(after) ^ set(before)][:4])], "workspace": l3common.ws_json(w), "cfg": l3common.cfg_json(cfg)})
+
+
 def l3common_corpus():
     F = lambda d, m=0o644: (d, m)
     base = l3gen.default_cfg()
@@ -164,7 +196,7 @@ def l3common_corpus():
 
 
 def replay(ctx, payload):
-    if "workspace" not in payload or "earlier_patches" in payload:
+    if "workspace" not in payload or "earlier_patches" in payload or payload.get("kind") == "not-all-or-nothing-dry":
         return run(ctx)
     w = l3common.ws_from_json(payload["workspace"])
     cfg = l3common.cfg_from_json(payload["cfg"])
